@@ -181,6 +181,64 @@ Definition roundtrip_hyp (cfg : qcfg) (e : char) (content : str) : bool :=
   && (q_multiline cfg || no_newline content)
   && negb (q_cws cfg && N.eqb e BS && after_backslash_special (end0 cfg)).
 
+(* ---------------------------------------------------------------- hypotheses of the round trip in the other configurations
+   (each of them is also evaluated in Python by tools/props/c18.py as the scope of the oracle on the implementation) *)
+(* (content + end).find(end) == len(content): the end quote neither occurs in the content nor straddles the closing one *)
+Fixpoint no_end_inside (eq content : str) : bool :=
+  match content with
+  | [] => true
+  | x :: r => negb (prefix_of eq ((x :: r) ++ eq)) && no_end_inside eq r
+  end.
+
+Definition no_bs (s : str) : bool := forallb (fun c => negb (N.eqb c BS)) s.
+
+(* w in s *)
+Fixpoint occurs (w s : str) : bool :=
+  match s with
+  | [] => prefix_of w []
+  | x :: r => prefix_of w (x :: r) || occurs w r
+  end.
+
+Definition quotes_nonempty (cfg : qcfg) : bool :=
+  negb (Nat.eqb (length (q_quote cfg)) 0) && negb (Nat.eqb (length (q_end cfg)) 0).
+
+(* the scanner's white-space / numeric alternatives are either off or cannot fire on the text between the quotes *)
+Definition scan_neutral (cfg : qcfg) (inner : str) : bool :=
+  negb (q_unquote cfg && q_cws cfg) || no_bs inner.
+
+(* no esc_char, no esc_quote *)
+Definition plain_hyp (cfg : qcfg) (content : str) : bool :=
+  quotes_nonempty cfg
+  && no_end_inside (q_end cfg) content
+  && (q_multiline cfg || no_newline content)
+  && scan_neutral cfg content.
+
+(* esc_quote only: a one-character end quote, an esc_quote of at least two characters that starts with it (SQL style) *)
+Definition escq_hyp (cfg : qcfg) (w : str) (content : str) : bool :=
+  quotes_nonempty cfg
+  && Nat.eqb (length (q_end cfg)) 1
+  && prefix_of (q_end cfg) w && (1 <? length w)
+  && (q_multiline cfg || no_newline content)
+  && scan_neutral cfg (escape_content cfg content).
+
+(* esc_char and esc_quote: the hypotheses of the esc_char case, and the esc_quote does not occur in the content and does
+   not contain the esc_char *)
+Definition both_hyp (cfg : qcfg) (e : char) (w : str) (content : str) : bool :=
+  roundtrip_hyp cfg e content
+  && negb (Nat.eqb (length w) 0)
+  && negb (occurs w content)
+  && negb (mem_char e w).
+
+(* which round-trip theorem (if any) covers the case: 0 none, 1 esc_char only, 2 plain, 3 esc_quote only, 4 both.
+   The harness compares this with its own Python evaluation of the same conditions on every model case. *)
+Definition qs_scope (cfg : qcfg) (content : str) : nat :=
+  match q_esc cfg, q_escq cfg with
+  | Some e, None => if roundtrip_hyp cfg e content then 1 else 0
+  | None, None => if plain_hyp cfg content then 2 else 0
+  | None, Some w => if escq_hyp cfg w content then 3 else 0
+  | Some e, Some w => if both_hyp cfg e w content then 4 else 0
+  end.
+
 (* ---------------------------------------------------------------- structural equality of patterns
    (used by the correspondence harness only: model pattern vs the sre_parse tree of the real pattern) *)
 Definition opt_nat_eqb (a b : option nat) : bool :=
